@@ -197,7 +197,7 @@ Definition src_nada_fn : list string :=  [
    "return NadaFunction(function_id, function=fn, args=nada_args, child=child, return_type=return_type, source_ref=SourceRef.back_frame())"].
 
 Definition src_is_primitive_integer : list string :=  [
-   "return (nada_type_str in ('Integer', 'PublicInteger', 'SecretInteger', 'UnsignedInteger', 'PublicUnsignedInteger', 'SecretUnsignedInteger'),)"].
+   "return nada_type_str in ('Integer', 'PublicInteger', 'SecretInteger', 'UnsignedInteger', 'PublicUnsignedInteger', 'SecretUnsignedInteger')"].
 
 Definition src_generate_accessor : list string :=  [
    "ty = type(value)"; 
@@ -259,7 +259,7 @@ Definition src_Array_inner_product : list string :=  [
 Definition src_Array_new : list string :=  [
    "if len(args) == 0: ;     raise ValueError('At least one value is required')"; 
    "first_arg = args[0]"; 
-   "if not all((isinstance(arg, type(first_arg)) for arg in args)): ;     raise TypeError('All arguments must be of the same type')"; 
+   "if not all((isinstance(arg, type(first_arg)) and arg.to_mir() == first_arg.to_mir() for arg in args)): ;     raise TypeError('All arguments must be of the same type')"; 
    "return Array(contained_type=first_arg, size=len(args), child=ArrayNew(child=args, source_ref=SourceRef.back_frame()))"].
 
 Definition src_Array_init_as_template_type : list string :=  [
@@ -283,7 +283,7 @@ Definition src_NTuple_new : list string :=  [
    "return NTuple(values=values, child=NTupleNew(child=values, source_ref=SourceRef.back_frame()))"].
 
 Definition src_NTuple_getitem : list string :=  [
-   "if index >= len(self.values): ;     raise IndexError(f'Invalid index {index} for NTuple.')"; 
+   "if index < 0 or index >= len(self.values): ;     raise IndexError(f'Invalid index {index} for NTuple.')"; 
    "accessor = NTupleAccessor(index=index, child=self, source_ref=SourceRef.back_frame())"; 
    "return _generate_accessor(self.values[index], accessor)"].
 
